@@ -151,8 +151,14 @@ def build(rng, kind, nin=1, pos=0, ht=1, mutate=None, annex=None, enc=None, wn=3
         sk, pk = K.new(rng.random() < 0.8); spk = bytes([0x76, 0xa9, 20]) + h160(pk) + bytes([0x88, 0xac])
     elif kind == "p2pk":
         sk, pk = K.new(); spk = push(pk) + b"\xac"
-    elif kind == "bare-if":         # no signatures: conditionals inside / across the two scripts
-        spk = b"\x63\x51\x68" if mutate != "openif" else b"\x68\x51"          # OP_IF OP_1 OP_ENDIF   |   OP_ENDIF OP_1
+    elif kind == "bare-if":         # no signatures: conditionals / alt stack inside or across the two scripts
+        spk = {None: b"\x63\x51\x68", "openif": b"\x68\x51", "altcarry": b"\x6c", "altown": b"\x51\x6b\x6c"}[mutate]
+    elif kind == "bare-big":        # a scriptPubKey of exactly wn bytes (few operations): 19 x (520-byte push, DROP), a filler push, DROP, OP_1
+        L = wn - 1 - 19 * 524
+        spk = (b"\x4d\x08\x02" + bytes(520) + b"\x75") * 19 + push(bytes(L - 2)) + b"\x75" + b"\x51"
+        assert len(spk) == wn
+    elif kind == "p2wsh-item":      # a witness item of wn bytes
+        ws = b"\x75\x51"; prog = b"\x00\x20" + sha(ws); spk = prog
     elif kind == "multisig":        # bare 2-of-3
         ks = [K.new() for _ in range(3)]; spk = b"\x52" + b"".join(push(k[1]) for k in ks) + b"\x53\xae"
     elif kind in ("p2sh", "p2sh-codesep", "p2sh-cs-unexec"):
@@ -175,10 +181,11 @@ def build(rng, kind, nin=1, pos=0, ht=1, mutate=None, annex=None, enc=None, wn=3
         isk = rng.randrange(1, R.N)
         q, par, p, _ = taproot_output(isk, [])
         spk = b"\x51\x20" + q
-    elif kind in ("p2tr-script", "p2tr-csa", "p2tr-codesep", "p2tr-cs-unexec", "p2tr-weight", "p2tr-keytype", "p2tr-path"):
+    elif kind in ("p2tr-script", "p2tr-csa", "p2tr-codesep", "p2tr-cs-unexec", "p2tr-weight", "p2tr-keytype", "p2tr-path", "p2tr-item"):
         isk = rng.randrange(1, R.N)
         lk = [K.new_x() for _ in range(3)]
-        if kind == "p2tr-path": leaves = [push(lk[0][1]) + b"\xac"] + [bytes([0x51 + (j % 16), 0x51 + (j // 16) % 16, 0x87]) for j in range(wn)]     # control path of length wn
+        if kind == "p2tr-item": leaves = [b"\x75\x51"]
+        elif kind == "p2tr-path": leaves = [push(lk[0][1]) + b"\xac"] + [bytes([0x51 + (j % 16), 0x51 + (j // 16) % 16, 0x87]) for j in range(wn)]     # control path of length wn
         elif kind == "p2tr-cs-unexec": leaves = [b"\x00\x63\xab\x68" + push(lk[0][1]) + b"\xac"]
         elif kind == "p2tr-weight": leaves = [(b"\x76" + push(lk[0][1]) + b"\xad") * wn + push(lk[0][1]) + b"\xac", b"\x51"]
         elif kind == "p2tr-keytype": leaves = [push(lk[0][1] + b"\x01") + b"\xac"]          # 33-byte key: unknown key type, succeeds unless discouraged
@@ -221,8 +228,15 @@ def build(rng, kind, nin=1, pos=0, ht=1, mutate=None, annex=None, enc=None, wn=3
         sig = ecdsa(usk, legacy_digest(tx, pos, spk, ht), ht)
         tx.vin[pos][2] = push(sig) + (push(pk) if kind == "p2pkh" else b"")
     elif kind == "bare-if":
-        tx.vin[pos][2] = b"\x51" if mutate != "openif" else b"\x51\x63"          # OP_1   |   OP_1 OP_IF (left open: UNBALANCED_CONDITIONAL in validation)
-        valid = mutate is None
+        # OP_1 | OP_1 OP_IF (left open: UNBALANCED_CONDITIONAL) | OP_1 OP_TOALTSTACK (the scriptPubKey has its own, empty alt stack) | OP_NOP
+        tx.vin[pos][2] = {None: b"\x51", "openif": b"\x51\x63", "altcarry": b"\x51\x6b", "altown": b"\x61"}[mutate]
+        valid = mutate in (None, "altown")
+    elif kind == "bare-big":
+        tx.vin[pos][2] = b"\x61"
+        valid = wn <= 10000
+    elif kind == "p2wsh-item":
+        tx.wit[pos] = [bytes(wn), ws]
+        valid = wn <= 520
     elif kind == "multisig":
         d = legacy_digest(tx, pos, spk, ht)
         order = sorted(rng.sample(range(3), 2))
@@ -299,7 +313,10 @@ def build(rng, kind, nin=1, pos=0, ht=1, mutate=None, annex=None, enc=None, wn=3
         if nin != 1:
             finding = "multi-input-taproot"
         if bip341_digest(tx, pos, ht, spent, 1, annex=annex, leaf_hash=lh) is None: valid = False
-        if kind in ("p2tr-cs-unexec", "p2tr-path"): items = [ssig(lk[0][0])]
+        if kind == "p2tr-item":
+            items = [bytes(wn)]
+            if wn > 520: valid = False
+        elif kind in ("p2tr-cs-unexec", "p2tr-path"): items = [ssig(lk[0][0])]
         elif kind == "p2tr-weight": items = [ssig(lk[0][0])]
         elif kind == "p2tr-keytype":
             items = [b"\x01"]; needs_off |= F_DUP                  # any non-empty signature passes for an unknown key type
